@@ -94,7 +94,6 @@ def gen_case(seed):
     case['steps'] = allsteps
     # shorter driver: phases dominate cost
     case['ops'] = case['ops'][:4]
-    kernel_fix_ops(case)
     return case
 
 
